@@ -7,7 +7,6 @@ CONSTANTS
   ModelData = TRUE
   AllocFailPoisons <- BothBool
   TopFits <- BothBool
-  InvalidWeight = 0
   Depth = 100000
 INVARIANTS TypeOK NoOverlap AboveBase InsideMem PagesBound DataIntact Structure
 PROPERTIES OversizeFails InvalidFreePoisons ValidFree PoisonSticks FreshAllocation DataStable PagesMonotone
